@@ -627,6 +627,11 @@ fn build_hvcc_fmp4(config: &FragmentConfig) -> Vec<u8> {
     // chromaFormat and the bit depths are those of the SPS the record carries
     let (chroma_format, luma_minus8, chroma_minus8) =
         crate::codec::h265::hvcc_chroma_and_depths(&config.sps);
+    if let Some(general) = crate::codec::h265::hvcc_general_profile_tier_level(&config.sps) {
+        // general profile space / tier / profile_idc, compatibility and constraint flags,
+        // level_idc: verbatim from the SPS
+        payload[1..13].copy_from_slice(&general);
+    }
     payload[16] |= chroma_format;
     payload[17] |= luma_minus8;
     payload[18] |= chroma_minus8;
